@@ -84,6 +84,10 @@ def admissible_inst(conc, delta) -> bool:
     try:
         tb.inst(tb.of_repo(conc), {k: tb.of_repo(v) for k, v in delta.items()}, 'strict', check='doc')
         return True
+    except tb.Capture as ex:
+        # capture under an existential binder: the toolkit has to refuse it itself (then nothing is serialised); under a mu
+        # binder it cannot (known finding), so those stay out
+        return str(ex).startswith('evar')
     except tb.Undefined:
         return False
 
@@ -108,6 +112,13 @@ def random_module(rng: random.Random, max_claims=6, with_imports=True, syms=SYMS
             b.import_module(shared)      # diamond: `shared` is reachable twice
             subs.append(b)
             tags.add('import_diamond')
+        if rng.random() < 0.4:
+            # a chain of depth two through a module that has no axioms of its own
+            leaf = PR.ProofExp(axioms=[pat(rng, 1, 0.0, 0.2, syms)])
+            middle = PR.ProofExp()
+            middle.import_module(leaf)
+            subs.append(middle)
+            tags.add('import_chain_through_axiomless_module')
         for s in subs:
             mod.import_module(s)
         tags.add('imports')
@@ -169,9 +180,29 @@ def random_module(rng: random.Random, max_claims=6, with_imports=True, syms=SYMS
                 add(mod.prop3(), 'prop3')
         except AssertionError:
             pass
+    if rng.random() < 0.15:
+        # a pending substitution whose plug holds a metavariable that the base does not: instantiate only that one
+        try:
+            a_, b_ = rng.sample((0, 1, 2), 2)
+            x_ = rng.choice((0, 1))
+            pend = P.ESubst(P.MetaVar(a_), P.EVar(x_), P.MetaVar(b_)) if rng.random() < 0.5 else P.SSubst(P.MetaVar(a_), P.SVar(x_), P.MetaVar(b_))
+            base_th = prop.prop1_inst(pend, p_()) if rng.random() < 0.5 else prop.imp_refl(pend)
+            newplug = pat(rng, 1, 0.0, 0.2, syms)
+            # (an identity plug would make the substitution redundant, which the machine refuses to build and the toolkit cannot judge)
+            if tb.of_repo(newplug) not in (tb.ev(x_), tb.sv(x_)) and _wf(tb.of_repo(P.ESubst(P.MetaVar(a_), P.EVar(x_), newplug))):
+                add(mod.dynamic_inst(base_th, {b_: newplug}), 'dynamic_inst(plug metavariable of a pending substitution)')
+                tags.add('pending_subst_plug_instantiated')
+        except AssertionError:
+            pass
     if rng.random() < 0.2:
         try:
-            plug = P.MetaVar(rng.choice((0, 1, 2)), e_fresh=tuple(P.EVar(i) for i in (0, 1) if rng.random() < 0.6)) if rng.random() < 0.6 else p_()
+            r_ = rng.random()
+            if r_ < 0.25:
+                # an exists-pattern whose binder is the quantifier axiom's plug variable x1 (capture business: toolkit and checker must agree)
+                body = rng.choice((P.App(P.Symbol(rng.choice(syms)), P.EVar(1)), P.App(P.EVar(0), P.EVar(1)), P.EVar(1), P.App(P.Symbol(rng.choice(syms)), P.EVar(2))))
+                plug = P.Exists(rng.choice((1, 1, 2)), body)
+            else:
+                plug = P.MetaVar(rng.choice((0, 1, 2)), e_fresh=tuple(P.EVar(i) for i in (0, 1) if rng.random() < 0.6)) if r_ < 0.7 else p_()
             add(mod.dynamic_inst(mod.exists_quantifier(), {0: plug}), 'dynamic_inst(exists_quantifier)')
             tags.add('quantifier')
             if isinstance(plug, P.MetaVar) and plug.e_fresh:
